@@ -349,6 +349,8 @@ type c05Arr struct {
 	Fwd   bool `json:"fwd,omitempty"` // send a FORWARD-TSN to cum+Off instead of DATA
 	GapMs int  `json:"gap,omitempty"` // time since previous arrival
 	N     int  `json:"n,omitempty"`   // run length of consecutive TSNs bundled as separate packets
+	Same  bool `json:"same,omitempty"` // the run travels as chunks of ONE packet (one SACK answers all of them)
+	Step  int  `json:"step,omitempty"` // with Same: distance between the TSNs of the run (1 consecutive, 2 every other one: gaps inside the packet; 0: the same TSN again, duplicates inside the packet)
 }
 
 type c05Wire struct {
@@ -388,6 +390,10 @@ func genC05Wire(rt *rapid.T) c05Wire {
 		default:
 			a.Off = rapid.IntRange(1, w).Draw(rt, "off")
 		}
+		if a.N > 1 && !a.Fwd && rapid.Bool().Draw(rt, "same") {
+			a.Same = true
+			a.Step = rapid.SampledFrom([]int{1, 1, 2, 0, -1}).Draw(rt, "step")
+		}
 		sc.Arr = append(sc.Arr, a)
 	}
 	return sc
@@ -410,7 +416,7 @@ func runC05Wire(t *testing.T, sc c05Wire, verbose bool) (c vfCase) {
 		var lastSackCum uint32 = sc.TSN - 1
 		haveSack := false
 		nSacks := 0
-		filled, dup, straddle := false, false, false
+		filled, dup, straddle, bundled := false, false, false, false
 		// model updates become effective when the packet reaches the receiver
 		type pend struct {
 			at time.Duration
@@ -483,10 +489,15 @@ func runC05Wire(t *testing.T, sc c05Wire, verbose bool) (c vfCase) {
 			if n < 1 {
 				n = 1
 			}
+			var bundle []wChunk
+			base := shadow.cum + uint32(a.Off)
 			for k := 0; k < n; k++ {
 				tsn := shadow.cum + uint32(a.Off) + uint32(k)
 				if a.Off == 1 {
 					tsn = shadow.cum + 1
+				}
+				if a.Same {
+					tsn = base + uint32(k*a.Step)
 				}
 				arrive := s.net.now() + s.net.baseDelay[1]
 				if a.Fwd {
@@ -518,9 +529,19 @@ func runC05Wire(t *testing.T, sc c05Wire, verbose bool) (c vfCase) {
 						mid++
 					}
 					ssn++
-					p.send(ch)
 					pending = append(pending, pend{arrive, func() { m.push(tsn); m.dups = nil; m.popLoop() }})
+					if a.Same {
+						bundle = append(bundle, ch)
+						continue
+					}
+					p.send(ch)
 				}
+				s.o.settle(25013 * time.Microsecond)
+				drain()
+			}
+			if len(bundle) > 0 {
+				p.send(bundle...)
+				bundled = true
 				s.o.settle(25013 * time.Microsecond)
 				drain()
 			}
@@ -543,6 +564,9 @@ func runC05Wire(t *testing.T, sc c05Wire, verbose bool) (c vfCase) {
 		}
 		if straddle {
 			c.class("window-straddles-2^32")
+		}
+		if bundled {
+			c.class("several-chunks-in-one-packet")
 		}
 		c.Nontrivial = filled && dup
 		if c.Verdict != "" || verbose {
